@@ -150,14 +150,42 @@ func (e *Engine) verifyFunction(fn *ssa.Function, ct *Contract) {
 			}
 			ctx := &EvalCtx{e: e, st: st2, old: st2.entry, vars: rv, c: c, pkg: pkg, fr: fr, entryAllocs: entryAllocs}
 			probes := e.collectProbes(ctx, c)
+			var prefs []string
+			for _, pf := range c.Prefers {
+				save := len(st2.pc)
+				if v, err := ctx.evalAs(pf.E, sBool); err == nil {
+					prefs = append(prefs, v.T)
+				}
+				st2.pc = st2.pc[:save]
+			}
 			for _, en := range c.Ensures {
 				v, err := ctx.evalAs(en.E, sBool)
 				if err != nil {
 					e.errorf("%s: ensures %q: %v", fn, en.Src, err)
 					continue
 				}
-				o := e.addObligation(st2, fr, "ensures", en.Tags, en.Src, fmt.Sprintf("%s:%d", en.File, en.Line), v.T, probes)
+				goal := v.T
+				for _, kf := range e.known {
+					if !strings.HasSuffix(fn.String(), kf.Function) || !hasTag(en.Tags, kf.Obligation) {
+						continue
+					}
+					rx, err := parseExpr(kf.Region)
+					if err != nil {
+						e.errorf("known finding %s: %v", kf.Obligation, err)
+						continue
+					}
+					rv, err := ctx.evalAs(rx, sBool)
+					if err != nil {
+						e.errorf("known finding %s region: %v", kf.Obligation, err)
+						continue
+					}
+					oi := e.addObligation(st2, fr, "known-inside", en.Tags, en.Src, kf.Region, "(=> "+rv.T+" "+v.T+")", probes)
+					oi.Path = pathID
+					goal = or(rv.T, goal)
+				}
+				o := e.addObligation(st2, fr, "ensures", en.Tags, en.Src, fmt.Sprintf("%s:%d", en.File, en.Line), goal, probes)
 				o.Path = pathID
+				o.Prefer = prefs
 			}
 		}
 	})
@@ -584,4 +612,13 @@ func (e *Engine) storeKeys(addr ssa.Value, keys map[string]bool, all *bool) {
 	default:
 		e.allocKeys(addr.Type().Underlying().(*types.Pointer).Elem(), keys)
 	}
+}
+
+func hasTag(tags []string, t string) bool {
+	for _, x := range tags {
+		if x == t {
+			return true
+		}
+	}
+	return false
 }
